@@ -172,19 +172,27 @@ func C04(c *Ctx) {
 			c.R.Check(okRecv, "C04-R1", "consider: tries elements of Branches.Branches", c.pos(tc), "receiver of try is an element of the node's branch slice", "try is not applied to the elements of Branches.Branches")
 			c.R.Check(okOrder, "C04-R1", "consider: ascending order", c.pos(tc), "index starts at a constant and advances by +1", "branches are not visited in ascending listed order")
 			// first success / error leaves the loop
-			var to, errv ssa.Value
-			for _, r := range ssau.Referrers(tc) {
-				if ex, ok := r.(*ssa.Extract); ok {
-					if ex.Index == 0 {
-						to = ex
-					}
-					if ex.Index == 2 {
-						errv = ex
-					}
+			// (try may hand its results back as a tuple or bundled in one struct: then every read of the field is the
+			// result)
+			tryStateIdx, tryErrIdx := 0, 2
+			if resultStruct(try.Signature) != nil {
+				tryStateIdx = logicalResultIdx(try.Signature, func(t types.Type) bool { return ssau.TypeIs(t, prog.Abs("core"), "State") })
+				tryErrIdx = logicalResultIdx(try.Signature, isErrorType)
+			}
+			toAll := map[ssa.Value]bool{}
+			errAll := map[ssa.Value]bool{}
+			if tryStateIdx >= 0 {
+				for _, v := range callResultParts(tc, tryStateIdx) {
+					toAll[v] = true
 				}
 			}
-			leave := func(v ssa.Value, what string) {
-				if v == nil {
+			if tryErrIdx >= 0 {
+				for _, v := range callResultParts(tc, tryErrIdx) {
+					errAll[v] = true
+				}
+			}
+			leave := func(vs map[ssa.Value]bool, what string) {
+				if len(vs) == 0 {
 					c.R.Violate("C04-R1", "consider: "+what+" leaves the loop", c.pos(tc), what+" of try is ignored")
 					return
 				}
@@ -195,7 +203,7 @@ func C04(c *Ctx) {
 						continue
 					}
 					bo, isB := iff.Cond.(*ssa.BinOp)
-					if !isB || bo.X != v || !ssau.IsNilConst(bo.Y) || !L.Blocks[b] {
+					if !isB || !vs[bo.X] || !ssau.IsNilConst(bo.Y) || !L.Blocks[b] {
 						continue
 					}
 					succ := 0
@@ -246,7 +254,7 @@ func C04(c *Ctx) {
 									continue
 								}
 								for ai, a := range cl.Common().Args {
-									if a != v || ai >= len(h.Params) {
+									if !vs[a] || ai >= len(h.Params) {
 										continue
 									}
 									par := h.Params[ai]
@@ -273,35 +281,47 @@ func C04(c *Ctx) {
 				}
 				c.R.Check(ok, "C04-R1", "consider: "+what+" leaves the loop", c.pos(tc), "a non-nil "+what+" ends the loop (later branches are not tried)", "a non-nil "+what+" does not end the branch loop")
 			}
-			leave(to, "next state")
-			leave(errv, "error")
+			leave(toAll, "next state")
+			leave(errAll, "error")
 			// the returned state is try's state
 			okRet := false
+			considerStateIdx := logicalResultIdx(consider.Signature, func(t types.Type) bool { return ssau.TypeIs(t, prog.Abs("core"), "State") })
 			for _, b := range consider.Blocks {
-				if ret, ok := b.Instrs[len(b.Instrs)-1].(*ssa.Return); ok && len(ret.Results) == 4 && !ssau.IsNilConst(ret.Results[0]) {
-					// (the state may come back through a private record that a helper fills: then every state it can hold
-					// at this return other than nil is try's)
-					viaRecord, nState := ret.Results[0] != to, 0
-					if viaRecord {
-						for _, d := range resolveCells(ret.Results[0], consider, considerFns) {
-							if ssau.IsNilConst(d) {
-								continue
-							}
-							nState++
-							if d != to {
-								viaRecord = false
-							}
+				ret, ok := b.Instrs[len(b.Instrs)-1].(*ssa.Return)
+				if !ok {
+					continue
+				}
+				lr := logicalResults(ret)
+				if lr == nil && resultStruct(consider.Signature) != nil {
+					c.R.Violate("C04-R1", "consider: returns the state of the first successful branch", c.pos(ret), "cannot tell which state this return of consider hands back (the result struct is not built at the return)")
+					continue
+				}
+				if len(lr) != 4 || considerStateIdx < 0 || ssau.IsNilConst(lr[considerStateIdx]) {
+					continue
+				}
+				res := lr[considerStateIdx]
+				// (the state may come back through a private record that a helper fills: then every state it can hold
+				// at this return other than nil is try's)
+				viaRecord, nState := !toAll[res], 0
+				if viaRecord {
+					for _, d := range resolveCells(res, consider, considerFns) {
+						if ssau.IsNilConst(d) {
+							continue
+						}
+						nState++
+						if !toAll[d] {
+							viaRecord = false
 						}
 					}
-					if viaRecord && nState == 0 {
-						continue // nil at this return
-					}
-					if ret.Results[0] == to || viaRecord {
-						okRet = true
-					} else {
-						okRet = false
-						c.R.Violate("C04-R1", "consider: returns the state of the first successful branch", c.pos(ret), "consider returns a state that is not the result of the branch that succeeded")
-					}
+				}
+				if viaRecord && nState == 0 {
+					continue // nil at this return
+				}
+				if toAll[res] || viaRecord {
+					okRet = true
+				} else {
+					okRet = false
+					c.R.Violate("C04-R1", "consider: returns the state of the first successful branch", c.pos(ret), "consider returns a state that is not the result of the branch that succeeded")
 				}
 			}
 			c.R.Check(okRet, "C04-R1", "consider: returns the state of the first successful branch", c.pos(tc), "the non-nil state returned is try's result", "no return of try's state")
@@ -375,18 +395,32 @@ func C04(c *Ctx) {
 		nret := 0
 		for _, b := range consider.Blocks {
 			ret, ok := b.Instrs[len(b.Instrs)-1].(*ssa.Return)
-			if !ok || len(ret.Results) != 4 {
+			if !ok {
 				continue
 			}
+			// (the results may be bundled in one struct built at the return: then the consumed result is its bool field)
+			lres, flagIdx := logicalResults(ret), 2
+			if resultStruct(consider.Signature) != nil {
+				flagIdx = logicalResultIdx(consider.Signature, isBoolType)
+				if lres == nil || flagIdx < 0 {
+					c.R.Violate("C04-R3", fmt.Sprintf("consider: return#%d reports Type==\"message\"", nret+1), c.pos(ret), "cannot tell what this return of consider reports as consumed (the result struct is not built at the return)")
+					nret++
+					continue
+				}
+			}
+			if len(lres) != 4 {
+				continue
+			}
+			retFlag := lres[flagIdx]
 			if !consumer.Block().Dominates(b) || consumer.Block() == b && false {
 				// before the flag is known (nil branches): must be false
-				c.R.Check(isFalse(ret.Results[2]), "C04-R3", fmt.Sprintf("consider: return#%d before branching type is read reports not consumed", nret), c.pos(ret), "constant false", "consumed reported without message branching")
+				c.R.Check(isFalse(retFlag), "C04-R3", fmt.Sprintf("consider: return#%d before branching type is read reports not consumed", nret), c.pos(ret), "constant false", "consumed reported without message branching")
 				nret++
 				continue
 			}
 			nret++
-			same := isConsumer(ret.Results[2])
-			if cst, isC := ret.Results[2].(*ssa.Const); isC && cst.Value != nil && cst.Value.Kind() == constant.Bool {
+			same := isConsumer(retFlag)
+			if cst, isC := retFlag.(*ssa.Const); isC && cst.Value != nil && cst.Value.Kind() == constant.Bool {
 				// a literal where the test is already decided the same way is the test's value
 				if known, val := consumerFact(flow.FactsAt(b)); known && val == constant.BoolVal(cst.Value) {
 					same = true
@@ -496,18 +530,18 @@ func C04(c *Ctx) {
 		c.R.Break("C04: Step does not call Branches.consider")
 		return
 	}
-	var flag ssa.Value
-	for _, r := range ssau.Referrers(considerCall) {
-		if ex, ok := r.(*ssa.Extract); ok && ex.Index == 2 {
-			flag = ex
-		}
+	// the consumed flag: result #2 of consider, or every read of the bool field of the struct consider bundles its results in
+	considerFlagIdx := 2
+	if resultStruct(consider.Signature) != nil {
+		considerFlagIdx = logicalResultIdx(consider.Signature, isBoolType)
 	}
+	isFlag := func(v ssa.Value) bool { return isCallResultPart(v, considerCall, considerFlagIdx) }
 	cs := storesTo(step, "Stride", "Consumed")
 	c.R.Check(len(cs) == 1, "C04-R3", "Step: one store to Stride.Consumed", c.P.Pos(step.Pos()), "one store", fmt.Sprintf("%d stores to Stride.Consumed", len(cs)))
 	for _, st := range cs {
 		under := false
 		for _, f := range flow.FactsAt(st.Block()) {
-			if f.Cond == flag && f.True {
+			if isFlag(f.Cond) && f.True {
 				under = true
 			}
 		}
@@ -517,7 +551,7 @@ func C04(c *Ctx) {
 			before[f] = true
 		}
 		for _, f := range flow.FactsAt(st.Block()) {
-			if !before[f] && !(f.Cond == flag && f.True) {
+			if !before[f] && !(isFlag(f.Cond) && f.True) {
 				under = false
 			}
 		}
@@ -613,6 +647,11 @@ func C04(c *Ctx) {
 		var why []string
 		for _, src := range sourcesWithFacts(bsArg, stepFns) {
 			succ := false
+			if fs := flow.Expand(src.facts); factsContradict(fs, fs) {
+				// a way that cannot be taken: it needs the same test to come out both ways (`if err != nil {...}`
+				// followed by `switch { case err == nil: ...`): the value that flows along it never arrives
+				continue
+			}
 			for _, f := range flow.Expand(src.facts) {
 				if b, isB := f.Cond.(*ssa.BinOp); isB && sameValue(b.X, aerr, actionCall.Parent()) && ssau.IsNilConst(b.Y) {
 					if (b.Op == token.EQL && f.True) || (b.Op == token.NEQ && !f.True) {
@@ -940,7 +979,21 @@ func C04(c *Ctx) {
 	nr := 0
 	for _, b := range try.Blocks {
 		ret, ok := b.Instrs[len(b.Instrs)-1].(*ssa.Return)
-		if !ok || len(ret.Results) != 3 || !ssau.IsNilConst(ret.Results[0]) || !ssau.IsNilConst(ret.Results[2]) {
+		if !ok {
+			continue
+		}
+		// (try may bundle its results in one struct built at the return: the state and the error are its fields)
+		tres, si, ei := logicalResults(ret), 0, 2
+		if resultStruct(try.Signature) != nil {
+			si = logicalResultIdx(try.Signature, func(t types.Type) bool { return ssau.TypeIs(t, prog.Abs("core"), "State") })
+			ei = logicalResultIdx(try.Signature, isErrorType)
+			if tres == nil || si < 0 || ei < 0 {
+				c.R.Violate("C04-R6", fmt.Sprintf("try: no-match return #%d decided by matcher/guard", nr+1), c.pos(ret), "cannot tell what this return of try hands back (the result struct is not built at the return)")
+				nr++
+				continue
+			}
+		}
+		if len(tres) != 3 || !ssau.IsNilConst(tres[si]) || !ssau.IsNilConst(tres[ei]) {
 			continue
 		}
 		nr++
